@@ -106,6 +106,19 @@ theorem instances_written (lvl : Level) (locals : List String) (subs : List Tree
     ∃ k, parseLevel lvl.toks = some (lvl.name, k) ∧ instances (.node lvl locals subs) c = some k :=
   ⟨lvl.instances, C17.level_roundtrip lvl, instances_of_local _ hn c _ (.here hc)⟩
 
+/-- the order in which sub-levels and local components are written is immaterial: two trees with distinct names that list the
+same components under levels of the same counts give the same dictionary -/
+theorem instances_order_free (t t' : Tree) (hn : ((assigns t).map Prod.fst).Nodup) (hn' : ((assigns t').map Prod.fst).Nodup)
+    (h : ∀ c n, LocalAt t c n ↔ LocalAt t' c n) (c : String) : instances t c = instances t' c := by
+  cases hi : instances t c with
+  | some n => exact (instances_of_local t' hn' c n ((h c n).mp (instances_sound t c n hi))).symm
+  | none =>
+    cases hi' : instances t' c with
+    | none => rfl
+    | some n =>
+      have := instances_of_local t hn c n ((h c n).mpr (instances_sound t' c n hi'))
+      rw [hi] at this; cases this
+
 /-- the count is the level's own, not a product along the path -/
 example : instances (.node ⟨"System", some 3⟩ ["Mem"] [.node ⟨"PE", some 7⟩ ["Mul", "Buf"] []]) "Mul" = some 8 := by decide
 
